@@ -159,6 +159,16 @@ func genC02(t *rapid.T) C02Case {
 	switch c.Op {
 	case "setint":
 		c.I = genBigIntString(t, "i", 3000)
+		if h.Rare(t, "hugeint", 40) {
+			// tens of thousands of digits: size estimates computed in 32-bit arithmetic wrap up there
+			b := rapid.SampledFrom([]uint{65536, 131072, 142675, 142676, 142677, 200003, 262144, 262145}).Draw(t, "hugebits")
+			v := new(big.Int).Lsh(big.NewInt(1), b)
+			v.Add(v, big.NewInt(int64(rapid.IntRange(-5, 12345).Draw(t, "hugedelta"))))
+			if rapid.Bool().Draw(t, "hugeneg") {
+				v.Neg(v)
+			}
+			c.I = v.String()
+		}
 	case "setint64":
 		c.I = big.NewInt(genInt64(t, "i")).String()
 	case "setuint64":
